@@ -310,7 +310,7 @@ func (e *Engine) specDefsText(used map[string]bool, opaque map[string]bool) stri
 			ps = append(ps, fmt.Sprintf("(%s %s)", p.S, p.Sort))
 			sorts = append(sorts, string(p.Sort))
 		}
-		if opaque[n] && d.Rec {
+		if (opaque[n] && d.Rec) || opaque["!"+n] {
 			fmt.Fprintf(&sb, "(declare-fun %s (%s) %s)\n", smtName(n), strings.Join(sorts, " "), d.Result)
 			continue
 		}
